@@ -28,7 +28,7 @@ sched)
   python3 "$H/overlay/patch_dag.py" "$dagdir/dag.go" "$out/dag_controlled.go"
   mkdir -p "$out/rw"
   # the rewriter is built without any overlay (it only needs go/packages)
-  true; (cd "$H" && go build -o "$out/rewrite" ./cmd/rewrite)
+  (cd "$H" && go build ${MODFILE:+-modfile="$MODFILE"} -o "$out/rewrite" ./cmd/rewrite)
   entries=$("$out/rewrite" -repo "$REPO" -out "$out/rw" hash lexer)
   cat > "$out/overlay-sched.json" <<EOF
 {"Replace": {${vs_entries} ${entries} "$dagdir/dag.go": "$out/dag_controlled.go"}}
